@@ -503,6 +503,9 @@ func (d *docEntry) Explore(e *env) {
 			if r.Kind != "ok" {
 				allok = false
 			}
+			if r.Kind == "harness" {
+				c.NotExhaustive("%s case %v could not be set up: %s %s", d.name, ids, r.Stage, r.Detail)
+			}
 			if r.Kind == "error" {
 				c.Floor(d.name + ":error:" + stageClass(r.Stage))
 			}
